@@ -273,8 +273,19 @@ def run_tf(task, acc):
              second_moment_decay=0.5, sketchy_rank=2,
              start_preconditioning_step=task["start"], momentum_decay=0.0,
              learning_rate=1.0, min_dim_size_to_factor=2, **skip)
-  opt = c07.build_tearfree(cfg)
   params_np = {k: G.dyadic(tuple(s), "P" + k) for k, s in shapes.items()}
+  # process history: optimizers that differ from this one in a single
+  # grafting hyper-parameter were built and stepped earlier in this process
+  for nb in ({"min_dim_size_to_factor": 128}, {"graft_decay": 0.25}):
+    if task["graft"] == "sgd" and "graft_decay" in nb:
+      continue
+    try:
+      o2 = c07.build_tearfree(dict(cfg, **nb))
+      p2 = {k: jnp.asarray(v) for k, v in params_np.items()}
+      o2.update(p2, o2.init(p2), p2)
+    except Exception:  # pylint: disable=broad-except
+      pass
+  opt = c07.build_tearfree(cfg)
   params = {k: jnp.asarray(v) for k, v in params_np.items()}
   # row-sparse events: after gRow0 the direction of gRow1s lies entirely in
   # eigen-directions that Shampoo drops (2^-28 of the block maximum), so its
